@@ -146,7 +146,8 @@ def run_check(pid, tier, seed, replay=None, jobs=None):
         violations = chosen + rest
 
         def confirm_batch(batch, tag):
-            with ProcessPoolExecutor(max_workers=jobs) as ex:
+            ex = ProcessPoolExecutor(max_workers=jobs)
+            try:
                 futs = {ex.submit(_exec_one, pid, dict(sc, confirm_hint=r.get("confirm_hint")), os.path.join(work, "confirm%s%d" % (tag, i)), True): (sc, r, vbad)
                         for i, (sc, r, vbad) in enumerate(batch)}
                 for fu in as_completed(futs):
@@ -158,8 +159,17 @@ def run_check(pid, tier, seed, replay=None, jobs=None):
                     keys2 = {(keyf(e, sc) if keyf else default_key(e)) for e in r2["bad"]}
                     if any(k in keys2 for k, _ in vbad):
                         confirmed.append((sc, r, vbad))
+                        # one reproduction on the stock interpreter shows that the accelerated evaluator is not what produces the
+                        # alarm; slower confirmations still running (hung executions take the interpreter an hour) are abandoned
+                        break
                     else:
                         unrepro.append(sc["name"])
+            finally:
+                procs = list(getattr(ex, "_processes", {}).values())
+                ex.shutdown(wait=False, cancel_futures=True)
+                for pr in procs:
+                    if pr.is_alive():
+                        pr.terminate()
         unrepro = []
         nconf = min(len(chosen), jobs)
         confirm_batch(violations[:nconf], "a")
